@@ -60,7 +60,7 @@ def gen_dataset(s: Choices, vdtype: str, tier: str, max_n: int = 200, allow_mult
     for c in range(ncols):
         dt = vdtype if c == 0 or s.draw(2) == 0 else "float64"
         arb = dt.startswith("float") and s.chance(1, 8)
-        cols.append({"dtype": dt, "arb": arb, "name": f"v{c}"})
+        cols.append({"dtype": dt, "arb": arb, "name": f"v{c}", "inf": arb and s.chance(1, 3)})
     ds["named"] = bool(s.draw(2))
     ds["index"] = s.weighted([(3, "range"), (1, "custom")])
     size_class = s.weighted([(7, 0), (5, 1), (1, 2)])
@@ -362,7 +362,13 @@ def col_array(col):
     raw = [alpha[i % len(alpha)] for i in col["idx"]]
     if dt[0] in "dt":
         return np.array(raw, dtype="int64").view(dt)
-    return np.array(raw, dtype=dt)
+    out = np.array(raw, dtype=dt)
+    if col.get("inf") and dt.startswith("float"):
+        # +inf and -inf: a block sum can then be NaN without any null in the block
+        idx = np.array(col["idx"], dtype=np.int64)
+        out[idx == 4] = np.inf
+        out[idx == 6] = -np.inf
+    return out
 
 
 def build_col(ds, c, lay=None, writable=True):
